@@ -29,6 +29,8 @@ impl Aroon {
 		r is Ok ==> r->Ok_0.inv() && r->Ok_0.cfg == self && r->Ok_0.uptrend == 0 && r->Ok_0.downtrend == 0,
 		r is Ok ==> r->Ok_0.highest_index.window.view() =~= konst(self.period as nat, candle.high_s())
 			&& r->Ok_0.lowest_index.window.view() =~= konst(self.period as nat, candle.low_s()),
+		// C08: the constant state for this candle's high and low (aroon_const_step)
+		r is Ok ==> r->Ok_0.const_state(candle.high_s(), candle.low_s()),
 //@replace Ok(Self::Instance { ==> Ok(AroonInstance {
 //@end
 }
@@ -91,6 +93,29 @@ impl AroonInstance {
 		assert(aroon_step(old(self), candle.high_s(), candle.low_s(), self, r.vals()[0], r.vals()[1], highest_index, lowest_index));
 	}
 //@end
+}
+
+// ---- C08 at indicator level: fed the candle it was initialised with, Aroon returns (1, 1) with no signals; the two streak counters stay equal
+impl AroonInstance {
+	pub open spec fn const_state(&self, h: R, l: R) -> bool {
+		&&& self.inv() && self.uptrend == self.downtrend && self.cross.up.last_delta@ == 0real
+		&&& self.highest_index.window.view() =~= konst(self.cfg.period as nat, h) && self.lowest_index.window.view() =~= konst(self.cfg.period as nat, l)
+	}
+}
+pub proof fn aroon_const_step(pre: &AroonInstance, h: ValueType, l: ValueType, post: &AroonInstance, up: ValueType, down: ValueType, hi: PeriodType, li: PeriodType, s1: Action)
+	requires pre.const_state(h, l), post.inv(), post.cfg == pre.cfg, aroon_step(pre, h, l, post, up, down, hi, li),
+		Cross::step(&pre.cross, &(up, down), &post.cross, &s1),
+		({
+			let z = pre.cfg.signal_zone@;
+			&&& post.uptrend == (if up@ >= 1real - z && down@ <= z { pre.uptrend + 1 } else { 0 })
+			&&& post.downtrend == (if down@ >= 1real - z && up@ <= z { pre.downtrend + 1 } else { 0 })
+		}),
+	ensures hi == 0 && li == 0, up@ == 1real && down@ == 1real, s1 is None, post.uptrend - post.downtrend == 0, post.const_state(h, l)
+{
+	highest_index_const_step(pre.highest_index, h, post.highest_index, hi);
+	lowest_index_const_step(pre.lowest_index, l, post.lowest_index, li);
+	let p = pre.cfg.period as real;
+	assert(p / p == 1real) by(nonlinear_arith) requires p >= 2real;
 }
 } // verus!
 fn main() {}
